@@ -201,7 +201,9 @@ Section Generic.
 End Generic.
 
 (* ------------------------------------------------------------------ the world of the concrete helpers *)
-Inductive skind := SFile (cid : N) | SDir.                 (* entries of the cwd: file / empty dir *)
+(* entries of the cwd: regular file / directory with the names of the regular files directly in it
+   (such a file is listed in [w_src] a second time under "dir/name") *)
+Inductive skind := SFile (cid : N) | SDir (kids : list str).
 Inductive node := NDir (mode : N) | NFile (cid mode : N).
 Definition path := list str.                               (* components below ED *)
 Definition image := list (path * node).
@@ -351,7 +353,9 @@ Fixpoint scan_words (ws : list str) (mode : N) (fb : bool) (fuel : nat) : option
           else if startswith P_MODE t then
             (let v := drop P_MODE t in
              if is_octal v then scan_words r (octal v) fb f else scan_words r mode true f)
-          else if startswith (lit "-o") t || startswith (lit "-g") t || startswith (lit "--") t then None
+          else if startswith (lit "-o") t || startswith (lit "-g") t
+                  || startswith (lit "--g") t || startswith (lit "--o") t
+                  || startswith (lit "--m") t || startswith (lit "--p") t then None   (* -o/-g, abbreviations *)
           else if startswith P_M t then
             (let v := drop P_M t in
              if is_octal v then scan_words r (octal v) fb f else scan_words r mode true f)
@@ -437,7 +441,7 @@ Section Bodies.
     | [] => (None, w)
     | (s, d) :: r =>
         let b := basename d in
-        match fault_of K_STAT s (w_faults w), assoc s (w_src w) with
+        match fault_of K_STAT (basename s) (w_faults w), assoc s (w_src w) with
         | Some e, _ => (Some (err1 (E "cannot stat " ++ py_repr s ++ E ": " ++ strerror e)), w)
         | None, None => (Some (err1 (E "cannot stat " ++ py_repr s ++ E ": " ++ strerror 2)), w)
         | None, Some k =>
@@ -452,7 +456,7 @@ Section Bodies.
                 let w0 := set_img w (img_del (comps d) (w_img w)) in
                 let cp := match fault_of K_COPY b (w_faults w), k with
                           | Some e, _ => inr e
-                          | None, SDir => inr 21               (* shutil.copyfile(directory) *)
+                          | None, SDir _ => inr 21             (* shutil.copyfile(directory) *)
                           | None, SFile cid => inl cid
                           end in
                 match cp with
@@ -515,7 +519,7 @@ Section Bodies.
 
   Definition is_dir_src (w : world) (n : str) : bool :=
     match fault_of K_STAT n (w_faults w), assoc n (w_src w) with
-    | None, Some SDir => true
+    | None, Some (SDir _) => true
     | _, _ => false
     end.
   Definition exists_src (w : world) (n : str) : bool :=
@@ -548,6 +552,17 @@ Section Bodies.
       let '(chunk, rem) := take_until_r (drop_leading_r args) in
       (existsb is_r args, chunk, filter (fun a => negb (is_r a)) rem)
     else (false, args, []).
+  Definition kids_of (w : world) (d : str) : list str :=
+    match assoc d (w_src w) with Some (SDir ks) => ks | _ => [] end.
+  (* _install_from_dirs for one directory argument (one level: the directory and its regular files),
+     through the installers CURRENTLY selected (fallback or not) *)
+  Definition install_tree (dest : str) (im dm : imode) (d : str) (w : world) : option hres * world :=
+    then_ (install_dirs [pjoin dest d] dm w)
+          (fun w1 => match kids_of w1 d with
+                     | [] => (None, w1)
+                     | ks => install_files (map (fun f => (pjoin d f, pjoin (pjoin dest d) f)) ks) im w1
+                     end).
+
   (* _InstallWrapper.run + _install_targets of Doins / Dodoc *)
   Definition install_run (has_r dir_is_error recursive : bool) (targets : list str) (dest : str)
              (im dm : imode) (w : world) : hres * world :=
@@ -563,7 +578,7 @@ Section Bodies.
         else
           finish
             (then_ (if recursive
-                    then fold_left (fun acc d => then_ acc (install_dirs [under d] dm)) dirs (None, w1)
+                    then fold_left (fun acc d => then_ acc (install_tree dest im dm d)) dirs (None, w1)
                     else (None, w1))
                    (install_files (map (fun f => (f, under f)) files) im))
     end.
@@ -806,7 +821,12 @@ Definition dec_pair {A} (f : str -> A) (s : str) : str * A :=
   | [k; v] => (unesc k, f v)
   | _ => ([], f [])
   end.
-Definition dec_src (s : str) : skind := match s with 100 :: _ => SDir | _ => SFile (num (tl s)) end.
+Definition dec_src (s : str) : skind :=          (* "f<cid>" | "d" | "d:kid,kid" *)
+  match s with
+  | 100 :: 58 :: r => SDir (map unesc (split_on 44 r))
+  | 100 :: _ => SDir []
+  | _ => SFile (num (tl s))
+  end.
 Definition dec_ans (s : str) : Z * list str :=
   match split_on 44 s with
   | st :: ls => (znum st, map unesc ls)
